@@ -628,18 +628,34 @@ func init() {
 	stubs["github.com/cosmos/cosmos-sdk/types/query.getIterator"] = func(e *Exec, fn *ssa.Function, args []Value) Value {
 		ref := e.storeRefOf(args[0])
 		start := args[1].(Bytes)
-		if !(start.Nil || (start.Len.IsConst() && start.Len.Val == 0)) {
-			panic(engineErr("key-based pagination (PageRequest.Key) is not modelled"))
-		}
+		keyed := !(start.Nil || (start.Len.IsConst() && start.Len.Val == 0))
 		it := e.makeIter(ref, nil).(Iface)
+		d := it.Val.(Opaque).Data.(*iterData)
 		rev := args[2].(*smt.Term)
 		if e.branch(rev) {
-			d := it.Val.(Opaque).Data.(*iterData)
 			for i, j := 0, len(d.entries)-1; i < j; i, j = i+1, j-1 {
 				d.entries[i], d.entries[j] = d.entries[j], d.entries[i]
 			}
 		}
-		e.Notes["query.Paginate/FilteredPaginate executed from SDK source over the symbolic store (offset, limit, count_total, reverse); key-based paging not modelled"] = true
+		if keyed {
+			// key-based paging: the iteration resumes at the entry whose key is PageRequest.Key
+			// (inclusive, in the requested direction). Only keys of existing entries are modelled -
+			// that is what a client obtains as next_key; the iteration order is the run's order.
+			items := e.keyItems(start)
+			at := -1
+			for i, en := range d.entries {
+				_, rest := e.keyHasPrefix(en.Key, ref.Prefix)
+				if e.branch(e.keyEqTerm(rest, items)) {
+					at = i
+					break
+				}
+			}
+			if at < 0 {
+				panic(engineErr("key-based pagination with a key that is not the key of an existing entry (seek between keys needs the lexicographic order: not modelled)"))
+			}
+			d.entries = d.entries[at:]
+		}
+		e.Notes["query.Paginate/FilteredPaginate executed from SDK source over the symbolic store (offset, limit, count_total, reverse, and key-based continuation from the key of an existing entry)"] = true
 		return it
 	}
 }
